@@ -56,7 +56,7 @@ prop(
     "cases = random increasing LSP sets (order 2..24, every gap incl. to 0 and pi >= 1.001*pi/(4(m+1)), clustered and spread) x stage 1..4 x alpha x linear/log gain x 6 rates, compared with K/|A(e^{j w~})|^s built by polynomial multiplication, on harmonics within 100 dB of the peak, in steady state and on the first-frame response; plus one fixed listed extreme set; non-trivial = model dynamic range >= 1 neper; distinct by (order, stage, alpha bucket, gain kind, rate)",
     [st("checked")],
     [st("checked"), st("release")],
-    VOC_ASSUME + ["diverging responses are classified by the model's dynamic range (beyond e^74 = (2^53)^2 they carry the listed known-finding signature)"],
+    VOC_ASSUME + ["diverging responses are classified by the model's dynamic range per cascaded section (beyond 28 nepers they carry the listed known-finding signature)"],
 )
 prop(
     "C14",
